@@ -67,4 +67,161 @@ theorem maxL_spec (xs : List K) : ∀ m : K,
         · left; exact h3
         · right; exact List.mem_cons_of_mem _ h3
 
+/-! ## the same on extended floats (`np.nanmin` / `np.nanmax` proper) -/
+
+theorem ef_le_refl {a : EF K} (h : isNan a = false) : EF.le a a = true := by
+  cases a <;> simp_all [EF.le, isNan]
+
+theorem ef_le_of_not_lt {a b : EF K} (ha : isNan a = false) (hb : isNan b = false)
+    (h : EF.lt a b = false) : EF.le b a = true := by
+  cases a <;> cases b <;> simp_all [EF.le, EF.lt, isNan]
+
+theorem ef_le_of_lt {a b : EF K} (h : EF.lt a b = true) : EF.le a b = true := by
+  cases a <;> cases b <;> simp_all [EF.le, EF.lt]
+  exact le_of_lt h
+
+theorem ef_le_trans {a b c : EF K} (h1 : EF.le a b = true) (h2 : EF.le b c = true) :
+    EF.le a c = true := by
+  cases a <;> cases b <;> cases c <;> simp_all [EF.le]
+  exact le_trans h1 h2
+
+theorem ef_not_nan_of_lt_left {a b : EF K} (h : EF.lt a b = true) : isNan a = false := by
+  cases a <;> cases b <;> simp_all [EF.lt, isNan]
+
+/-- the running minimum over non-NaN values -/
+theorem foldMin_spec (xs : List (EF K)) : ∀ m : EF K, isNan m = false → (∀ y ∈ xs, isNan y = false) →
+    let r := xs.foldl (fun m y => if EF.lt y m then y else m) m
+    isNan r = false ∧ EF.le r m = true ∧ (∀ y ∈ xs, EF.le r y = true) ∧ (r = m ∨ r ∈ xs) := by
+  induction xs with
+  | nil => intro m hm _; simp [ef_le_refl hm, hm]
+  | cons x xs ih =>
+    intro m hm hxs
+    have hx : isNan x = false := hxs x (by simp)
+    have hxs' : ∀ y ∈ xs, isNan y = false := fun y hy => hxs y (by simp [hy])
+    simp only [List.foldl_cons]
+    by_cases h : EF.lt x m = true
+    · simp only [h, if_true]
+      obtain ⟨h0, h1, h2, h3⟩ := ih x hx hxs'
+      refine ⟨h0, ef_le_trans h1 (ef_le_of_lt h), ?_, ?_⟩
+      · intro y hy
+        rcases List.mem_cons.mp hy with rfl | hy'
+        · exact h1
+        · exact h2 y hy'
+      · rcases h3 with h3 | h3
+        · right; rw [h3]; simp
+        · right; exact List.mem_cons_of_mem _ h3
+    · have h' : EF.lt x m = false := by simpa using h
+      simp only [h', Bool.false_eq_true, if_false]
+      obtain ⟨h0, h1, h2, h3⟩ := ih m hm hxs'
+      refine ⟨h0, h1, ?_, ?_⟩
+      · intro y hy
+        rcases List.mem_cons.mp hy with rfl | hy'
+        · exact ef_le_trans h1 (ef_le_of_not_lt hx hm h')
+        · exact h2 y hy'
+      · rcases h3 with h3 | h3
+        · left; exact h3
+        · right; exact List.mem_cons_of_mem _ h3
+
+/-- the running maximum over non-NaN values -/
+theorem foldMax_spec (xs : List (EF K)) : ∀ m : EF K, isNan m = false → (∀ y ∈ xs, isNan y = false) →
+    let r := xs.foldl (fun m y => if EF.lt m y then y else m) m
+    isNan r = false ∧ EF.le m r = true ∧ (∀ y ∈ xs, EF.le y r = true) ∧ (r = m ∨ r ∈ xs) := by
+  induction xs with
+  | nil => intro m hm _; simp [ef_le_refl hm, hm]
+  | cons x xs ih =>
+    intro m hm hxs
+    have hx : isNan x = false := hxs x (by simp)
+    have hxs' : ∀ y ∈ xs, isNan y = false := fun y hy => hxs y (by simp [hy])
+    simp only [List.foldl_cons]
+    by_cases h : EF.lt m x = true
+    · simp only [h, if_true]
+      obtain ⟨h0, h1, h2, h3⟩ := ih x hx hxs'
+      refine ⟨h0, ef_le_trans (ef_le_of_lt h) h1, ?_, ?_⟩
+      · intro y hy
+        rcases List.mem_cons.mp hy with rfl | hy'
+        · exact h1
+        · exact h2 y hy'
+      · rcases h3 with h3 | h3
+        · right; rw [h3]; simp
+        · right; exact List.mem_cons_of_mem _ h3
+    · have h' : EF.lt m x = false := by simpa using h
+      simp only [h', Bool.false_eq_true, if_false]
+      obtain ⟨h0, h1, h2, h3⟩ := ih m hm hxs'
+      refine ⟨h0, h1, ?_, ?_⟩
+      · intro y hy
+        rcases List.mem_cons.mp hy with rfl | hy'
+        · exact ef_le_trans (ef_le_of_not_lt hm hx h') h1
+        · exact h2 y hy'
+      · rcases h3 with h3 | h3
+        · left; exact h3
+        · right; exact List.mem_cons_of_mem _ h3
+
+/-- `np.nanmin`: NaN exactly when every entry is NaN; otherwise a non-NaN entry of the column below
+    every non-NaN entry -/
+theorem nanMin_spec (col : List (EF K)) :
+    ((∀ y ∈ col, isNan y = true) → nanMin col = EF.nan) ∧
+    ((∃ y ∈ col, isNan y = false) → nanMin col ∈ col ∧ isNan (nanMin col) = false ∧
+      ∀ y ∈ col, isNan y = false → EF.le (nanMin col) y = true) := by
+  unfold nanMin
+  constructor
+  · intro h
+    have : col.filter (fun x => !isNan x) = [] := by
+      apply List.filter_eq_nil_iff.mpr
+      intro y hy; simp [h y hy]
+    rw [this]
+  · rintro ⟨y0, hy0, hn0⟩
+    have hmem0 : y0 ∈ col.filter (fun x => !isNan x) := List.mem_filter.mpr ⟨hy0, by simp [hn0]⟩
+    cases hf : col.filter (fun x => !isNan x) with
+    | nil => rw [hf] at hmem0; simp at hmem0
+    | cons v vs =>
+      have hall : ∀ y ∈ v :: vs, y ∈ col ∧ isNan y = false := by
+        intro y hy
+        have := List.mem_filter.mp (hf ▸ hy)
+        exact ⟨this.1, by simpa using this.2⟩
+      obtain ⟨h0, h1, h2, h3⟩ := foldMin_spec vs v (hall v (by simp)).2
+        (fun y hy => (hall y (by simp [hy])).2)
+      simp only
+      refine ⟨?_, h0, ?_⟩
+      · rcases h3 with h3 | h3
+        · rw [h3]; exact (hall v (by simp)).1
+        · exact (hall _ (List.mem_cons_of_mem _ h3)).1
+      · intro y hy hny
+        have : y ∈ v :: vs := hf ▸ List.mem_filter.mpr ⟨hy, by simp [hny]⟩
+        rcases List.mem_cons.mp this with rfl | hy'
+        · exact h1
+        · exact h2 y hy'
+
+theorem nanMax_spec (col : List (EF K)) :
+    ((∀ y ∈ col, isNan y = true) → nanMax col = EF.nan) ∧
+    ((∃ y ∈ col, isNan y = false) → nanMax col ∈ col ∧ isNan (nanMax col) = false ∧
+      ∀ y ∈ col, isNan y = false → EF.le y (nanMax col) = true) := by
+  unfold nanMax
+  constructor
+  · intro h
+    have : col.filter (fun x => !isNan x) = [] := by
+      apply List.filter_eq_nil_iff.mpr
+      intro y hy; simp [h y hy]
+    rw [this]
+  · rintro ⟨y0, hy0, hn0⟩
+    have hmem0 : y0 ∈ col.filter (fun x => !isNan x) := List.mem_filter.mpr ⟨hy0, by simp [hn0]⟩
+    cases hf : col.filter (fun x => !isNan x) with
+    | nil => rw [hf] at hmem0; simp at hmem0
+    | cons v vs =>
+      have hall : ∀ y ∈ v :: vs, y ∈ col ∧ isNan y = false := by
+        intro y hy
+        have := List.mem_filter.mp (hf ▸ hy)
+        exact ⟨this.1, by simpa using this.2⟩
+      obtain ⟨h0, h1, h2, h3⟩ := foldMax_spec vs v (hall v (by simp)).2
+        (fun y hy => (hall y (by simp [hy])).2)
+      simp only
+      refine ⟨?_, h0, ?_⟩
+      · rcases h3 with h3 | h3
+        · rw [h3]; exact (hall v (by simp)).1
+        · exact (hall _ (List.mem_cons_of_mem _ h3)).1
+      · intro y hy hny
+        have : y ∈ v :: vs := hf ▸ List.mem_filter.mpr ⟨hy, by simp [hny]⟩
+        rcases List.mem_cons.mp this with rfl | hy'
+        · exact h1
+        · exact h2 y hy'
+
 end SF.Match
